@@ -9,4 +9,6 @@ MfsSmall == {-1, 1}
 MfsNone == {-1}
 ClNone == {-1}
 ClOne == {-1, 1}
+ClZero == {-1, 0}
+ClZeroOne == {-1, 0, 1}
 =============================================================================
